@@ -61,6 +61,7 @@ struct FnDir {
     /// without fixing its spelling)
     binds: Vec<(String, String)>,
     macros_opt: Vec<usize>,
+    binds_opt: Vec<usize>,
     /// `@@noloops`: this contract (variant) is for a loop-free body: any loop is a lost anchor
     noloops: bool,
     /// E20 `@@caught ~text => call`: the expression `AssertUnwindSafe(async { BODY }).catch_unwind()`
@@ -287,9 +288,13 @@ fn parse_template(path: &Path, nodes: &mut Vec<Node>) {
                         "sig" => d.sig = Some(rest),
                         "allow_empty" => d.allow_empty = true,
                         "noloops" => d.noloops = true,
-                        "bind" => {
+                        "bind" | "bind?" => {
                             let (n, a) = rest.split_once(char::is_whitespace).unwrap_or_else(|| die(&format!("{sctx}: @@bind $name anchor")));
                             d.binds.push((n.trim().to_string(), a.trim().to_string()));
+                            // `@@bind? ..`: when no `let` matches, `$name` becomes a fresh name that the text binds nothing to
+                            if kw == "bind?" {
+                                d.binds_opt.push(d.binds.len() - 1);
+                            }
                         }
                         "tail" => d.tail = Some(rest),
                         "letrecv" => {
@@ -865,6 +870,21 @@ impl<'a, 'ast> Visit<'ast> for Ed<'a> {
                             let es = e.span().byte_range();
                             let repl = self.dir.caughts[n].1.clone();
                             self.push(es.start, es.end, repl, "E20-caught-user-code", true);
+                            return;
+                        }
+                    }
+                }
+                // `AssertUnwindSafe(step_fn(..)).catch_unwind()`: the user function is CALLED before
+                // catch_unwind is in effect (only the future it returns is polled inside it)
+                if let (syn::Expr::Path(p), Some(syn::Expr::Call(uc)), 1) = (&*c.func, c.args.first(), c.args.len()) {
+                    if p.path.segments.last().map(|s| s.ident == "AssertUnwindSafe").unwrap_or(false) {
+                        let t = &self.src[uc.span().byte_range()];
+                        let hit = self.dir.caughts.iter().position(|(anchor, _)| t.starts_with(anchor.trim_start_matches('~').trim()));
+                        if let Some(n) = hit {
+                            self.caughts_used[n] += 1;
+                            let es = e.span().byte_range();
+                            let repl = format!("({{ vx_unguarded_user_code::<()>(); {} }})", self.dir.caughts[n].1);
+                            self.push(es.start, es.end, repl, "E20-unguarded-user-code", true);
                             return;
                         }
                     }
@@ -2246,7 +2266,12 @@ fn main() {
                     let ph = &ph;
                     let mut lf = LetFinder { src: &src.text, anchor, nth, found: None };
                     lf.visit_block(f.block);
-                    let id = lf.found.unwrap_or_else(|| die(&format!("{ctx}: @@bind anchor matches no `let` statement: {anchor}")));
+                    let bind_idx = d.binds.iter().position(|(p2, a2)| a2 == anchor && p2.starts_with(ph.as_str())).unwrap_or(usize::MAX);
+                    let id = match lf.found {
+                        Some(id) => id,
+                        None if d.binds_opt.contains(&bind_idx) => format!("vx_unbound_{}", ph.trim_start_matches('$')),
+                        None => die(&format!("{ctx}: @@bind anchor matches no `let` statement: {anchor}")),
+                    };
                     text = text.replace(ph.as_str(), &id);
                 }
                 // longest placeholders first (`$last10` before `$last1`)
